@@ -122,7 +122,11 @@ pub fn event(id: usize, c: &ConeSpec, s: &[f64], z: &[f64], ds: &[f64], dz: &[f6
                     let u = solve(&b0.h_dual, ds);
                     let t: Vec<f64> = (0..n).map(|i| (0..n).map(|j| (p.h_dual[i][j] - m.h_dual[i][j]) / (2.0 * hd) * u[j]).sum::<f64>()).collect();
                     let want: Vec<f64> = t.iter().map(|v| 0.5 * v).collect();
-                    put("third_order", dist(&b0.eta, &want), 1e-4 * (norm(&want) + norm(&b0.eta)) + 1e-9 * hn * norm(&u));
+                    // (both sides solve with H: their rounding differs by cond(H) * eps)
+                    let hinv: Vec<Vec<f64>> = (0..n).map(|i| { let mut e = vec![0.0; n]; e[i] = 1.0; solve(&b0.h_dual, &e) }).collect();
+                    let cond = hn * fro(&hinv);
+                    put("third_order", dist(&b0.eta, &want), (1e-4 + 1e-13 * cond) * (norm(&want) + norm(&b0.eta)) + 1e-9 * hn * norm(&u)
+                        + 1e-14 * norm(&b0.grad_dual));      // (the hook reads eta as a difference of two shifts of the size of the gradient)
                 }
             }
         } else {
@@ -224,7 +228,7 @@ pub fn record(seed: u64, count: usize) -> (Vec<Value>, Value) {
         }
         let mut s = gen::interior(&c, &mut rng, false);
         let mut z = gen::interior(&c, &mut rng, true);
-        let (a, b) = (10f64.powf(gen::unif(&mut rng, -2.0, 2.0)), 10f64.powf(gen::unif(&mut rng, -2.0, 2.0)));
+        let (a, b) = (10f64.powf(gen::unif(&mut rng, -6.0, 6.0)), 10f64.powf(gen::unif(&mut rng, -6.0, 6.0)));
         for v in s.iter_mut() { *v *= a; }
         for v in z.iter_mut() { *v *= b; }
         let n = s.len();
